@@ -12,7 +12,8 @@ pub struct RSCodecParam {
 #[derive(Debug)]
 pub struct RSGalois8Codec {
     params: RSCodecParam,
-    rs: reed_solomon_erasure::galois_8::ReedSolomon,
+    // None when there is no parity symbol: the code is then systematic only
+    rs: Option<reed_solomon_erasure::galois_8::ReedSolomon>,
     decode_shards: Vec<Option<Vec<u8>>>,
     decode_block: Option<Vec<u8>>,
     nb_source_symbols_received: usize,
@@ -51,9 +52,16 @@ impl RSGalois8Codec {
         nb_parity_symbols: usize,
         encoding_symbol_length: usize,
     ) -> Result<RSGalois8Codec> {
-        let rs =
-            reed_solomon_erasure::galois_8::ReedSolomon::new(nb_source_symbols, nb_parity_symbols)
-                .map_err(|_| FluteError::new("Fail to create RS codec"))?;
+        let rs = match nb_parity_symbols {
+            0 if nb_source_symbols > 0 => None,
+            _ => Some(
+                reed_solomon_erasure::galois_8::ReedSolomon::new(
+                    nb_source_symbols,
+                    nb_parity_symbols,
+                )
+                .map_err(|_| FluteError::new("Fail to create RS codec"))?,
+            ),
+        };
 
         Ok(RSGalois8Codec {
             params: RSCodecParam {
@@ -102,7 +110,11 @@ impl FecDecoder for RSGalois8Codec {
         }
 
         if self.nb_source_symbols_received < self.params.nb_source_symbols {
-            match self.rs.reconstruct(&mut self.decode_shards) {
+            let rs = match self.rs.as_ref() {
+                Some(rs) => rs,
+                None => return false,
+            };
+            match rs.reconstruct(&mut self.decode_shards) {
                 Ok(_) => {
                     log::info!("Reconstruct with success !");
                 }
@@ -137,9 +149,10 @@ impl FecDecoder for RSGalois8Codec {
 impl FecEncoder for RSGalois8Codec {
     fn encode(&self, data: &[u8]) -> Result<Vec<Box<dyn FecShard>>> {
         let mut shards = self.params.create_shards(data)?;
-        self.rs
-            .encode(&mut shards)
-            .map_err(|_| FluteError::new("Fail to encode RS"))?;
+        if let Some(rs) = self.rs.as_ref() {
+            rs.encode(&mut shards)
+                .map_err(|_| FluteError::new("Fail to encode RS"))?;
+        }
 
         let shards: Vec<Box<dyn FecShard>> = shards
             .into_iter()
